@@ -105,6 +105,7 @@ func (s *Server) DidClose(ctx context.Context, params *lsp.DidCloseTextDocumentP
 func (s *Server) typecheck(ctx context.Context, uri lsp.DocumentURI, version uint32, content string) error {
 	var res []lsp.Diagnostic
 
+	verifDelay(version)
 	_, err := compiler.Compile(ctx, uri.Filename(), content, compiler.Params{CheckOnly: true, Verbose: true})
 	for _, p := range status.FromError(err) {
 		rng, _, _ := strings.Cut(content[p.Origin.Offset:p.Origin.EndOffset], "\n")
@@ -141,6 +142,7 @@ func (s *Server) Definition(ctx context.Context, params *lsp.DefinitionParams) (
 		return nil, fmt.Errorf("%s is not opened", filename)
 	}
 
+	verifDelay(doc.version)
 	cursor, err := resolvePosition(doc.content, params.Position)
 	if err != nil {
 		return nil, err
